@@ -19,7 +19,7 @@ Definition obs_eqb (a b : option (list Z)) : bool :=
 
 (* id, (workers = runtime.NumCPU(), n of numbers(n), stages, terminal kind, terminal parameters),
    observation on the implementation: None = evaluation failed, Some l = canonical result *)
-Definition c06_pipe := (N * Z * list (skind * sp) * tkind * sp)%type.
+Definition c06_pipe := (N * Z * list pstage * tkind * sp)%type.
 Definition c06_case := (N * c06_pipe * option (list Z))%type.
 Definition c06_id (c : c06_case) : N := fst (fst c).
 
